@@ -481,6 +481,12 @@ func (g *Gen) contractCall(in *ssa.Call, con *Contract, callee *ssa.Function, co
 		if !clauseActive(cl, g.fmode) {
 			continue
 		}
+		// call counts and lock bookkeeping are local to the function being verified: a clause that
+		// speaks about them is part of the callee's proof only (assumed at a call site it would be
+		// read over the CALLER's counters and could make the caller's paths unreachable)
+		if strings.Contains(cl.Src, "callcount(") || strings.Contains(cl.Src, "lockheld(") || strings.Contains(cl.Src, "lockwheld(") || strings.Contains(cl.Src, "lockepoch") {
+			continue
+		}
 		// a postcondition that mentions locals of the callee is internal to the callee's proof:
 		// callers cannot state it and do not get it
 		if _, err := g.evalClause(cl, envPost); err != nil && strings.Contains(err.Error(), "unknown identifier") {
